@@ -407,7 +407,7 @@ func c03emitted(p *core.Program, t types.Type, tmpl, fld string, depth int) []c0
 		n, why := defStart()
 		fn := c03Method(t, "MarshalXML")
 		if fi := c03FuncInfoOf(p, fn); fi != nil {
-			ov := c04StartOverrideOf(p, fi)
+			ov := c04StartOverrideOf(p, fi, n)
 			switch {
 			case ov.Unknown != "":
 				return []c03Emit{{Err: funcName(fn) + ": " + ov.Unknown}}
